@@ -52,7 +52,7 @@ def fnum_eq(tok, value):
     return x == value or (np.isnan(x) and np.isnan(value))
 
 
-def check_contents(oc, pf, keys, keep_ids, new_names, recipe_fn, fidx):
+def check_contents(oc, pf, keys, keep_ids, new_names, recipe_fn, fidx, new_rtol=None):
     names = [keys[i] for i in keep_ids] + new_names
     if oc['fields'] != names:
         return f"fields {oc['fields']} instead of {names} (kept fields, then the recipe's fields)"
@@ -78,7 +78,14 @@ def check_contents(oc, pf, keys, keep_ids, new_names, recipe_fn, fidx):
             nk = len(keep_ids)
             if nk and data[..., :nk].tobytes(order='F') != np.asarray(want[..., :nk], dtype='<f8').tobytes(order='F'):
                 return f"level {lv} box {lo}-{hi}: kept fields are not bit-identical to the input box"
-            if data[..., nk:].tobytes(order='F') != np.asarray(want[..., nk:], dtype='<f8').tobytes(order='F'):
+            got_new, want_new = data[..., nk:], np.asarray(want[..., nk:], dtype='<f8')
+            if new_rtol is None:
+                same = got_new.tobytes(order='F') == want_new.tobytes(order='F')
+            else:
+                # Cantera values: equal up to rounding (the order of floating-point operations is not part of the property)
+                same = bool(np.array_equal(np.isnan(got_new), np.isnan(want_new))
+                            and np.allclose(got_new, want_new, rtol=new_rtol, atol=0.0, equal_nan=True))
+            if not same:
                 return f"level {lv} box {lo}-{hi}: new fields are not the recipe evaluated on the box's input data"
             if bnd != [(float(a), float(c)) for a, c in gen.box_bounds(pf, lv, lo, hi)]:
                 return f"level {lv} box {lo}-{hi}: physical bounds differ"
@@ -176,6 +183,172 @@ def run_case(seed):
     return out
 
 
+# ------------------------------------------------------------------ built-in thermochemical recipes
+COOKBOOK = {'HRR': ('heat_release_rate', 'HeatRelease'), 'ENT': ('enthalpy_mass', 'Enthalpy'),
+            'SRi': ('net_production_rates', 'IRm'), 'SDi': ('mix_diff_coeffs_mass', 'DI'), 'RRi': ('net_rates_of_progress', 'R')}
+MECH = 'h2o2.yaml'          # bundled with Cantera: 10 species, 29 reactions
+
+
+def builtin_expected(gas, data, fields, recipe, sp_idx, rx_idx, pressure):
+    """the built-in recipe on one box, evaluated independently with Cantera: a fresh SolutionArray at the box's
+    temperature, the given pressure and the box's mass fractions (cells without a thermodynamic state - zero
+    temperature, no species - are given T = 1 and pure O2, as the tool documents)"""
+    import cantera as ct
+    names = [sp.name for sp in gas.species()]
+    y0 = fields.index(f"Y({names[0]})")
+    T = np.array(data[..., fields.index('temp')], dtype='float64', order='F')
+    Y = np.array(data[..., y0:y0 + len(names)], dtype='float64', order='F')
+    T[np.isclose(T, 0)] = 1
+    Y[np.isclose(np.sum(Y, axis=3), 0), gas.species_index('O2')] = 1.0
+    sa = ct.SolutionArray(gas, T.shape)
+    sa.TPY = T, pressure * ct.one_atm * np.ones(T.shape), Y
+    val = getattr(sa, COOKBOOK[recipe][0])
+    if recipe in ('HRR', 'ENT'):
+        return np.asarray(val)[..., np.newaxis]
+    if recipe == 'RRi':
+        return np.asarray(val)[..., rx_idx]
+    return np.asarray(val)[..., sp_idx]
+
+
+def run_builtin_case(seed):
+    import cantera as ct
+    from amr_kitchen.chef import Chef
+    rng = random.Random(seed)
+    nprng = np.random.default_rng(seed)
+    model = core.W['model']
+    out = dict(evals=0, keys=[], dist={}, samples=[], violations=[], disagreements=[])
+    dist = out['dist']
+
+    def count(k):
+        dist[k] = dist.get(k, 0) + 1
+
+    gas = ct.Solution(MECH)
+    sp = [s.name for s in gas.species()]
+    before = rng.sample(['density', 'x_velocity'], rng.randint(0, 2))
+    after = rng.sample(['pressure', 'mag_vort'], rng.randint(0, 2)) + ['temp']
+    rng.shuffle(after)
+    if rng.random() < 0.3:
+        before, after = after, before
+    fields = before + [f"Y({s})" for s in sp] + after
+    pf = gen.gen_plotfile(rng, ndims=3, max_blocks=2, nfields=(len(fields), len(fields)), nlevels=rng.choice([1, 2]), payload='random', bf=2)
+    pf.fields = fields
+    y0, it = fields.index(f"Y({sp[0]})"), fields.index('temp')
+    covered = 0
+    for lev in pf.levels:
+        for d in lev.data:
+            shp = d.shape[:3]
+            Y = nprng.random(shp + (len(sp),))
+            Y /= Y.sum(axis=3, keepdims=True)
+            Y *= 1.0 + 1e-6 * nprng.uniform(-1, 1, shp + (1,))      # sums close to, not exactly, one
+            d[..., y0:y0 + len(sp)] = Y
+            d[..., it] = nprng.uniform(300, 2500, shp)
+            if rng.random() < 0.5:                                   # cells without a state (embedded boundary)
+                for _ in range(rng.randint(1, 3)):
+                    c = tuple(rng.randrange(n) for n in shp)
+                    d[c + (it,)] = 0.0
+                    d[c + (slice(y0, y0 + len(sp)),)] = 0.0
+                    covered += 1
+    keys = list(fields)
+    fidx = {k: i for i, k in enumerate(keys)}
+    img = diskimg.image_of(pf)
+    path = core.scratch_dir(f"c11b_{seed}")
+    diskimg.write_image(img, path)
+    img_sx = diskimg.image_sx(img)
+    count(f"levels={pf.nlevels}")
+    count(f"cells without a state={'yes' if covered else 'no'}")
+    for k in range(2):
+        recipe = rng.choice(['HRR', 'ENT', 'SRi', 'SDi', 'RRi'])
+        species = reactions = None
+        sp_idx = rx_idx = []
+        if recipe in ('SRi', 'SDi'):
+            form = rng.choice(['list', 'list', 'all', 'all-in-list'])
+            if form == 'list':
+                species = rng.sample(sp, rng.randint(1, 4))
+                sp_idx = [sp.index(x) for x in species]
+            else:
+                species = 'all' if form == 'all' else ['all']
+                sp_idx = list(range(len(sp)))
+            new_names = [f"{COOKBOOK[recipe][1]}({sp[i]})" for i in sp_idx]
+        elif recipe == 'RRi':
+            reactions = rng.sample(range(gas.n_reactions), rng.randint(1, 4))
+            rx_idx = list(reactions)
+            new_names = [f"{COOKBOOK[recipe][1]}{i}" for i in rx_idx]
+        else:
+            new_names = [COOKBOOK[recipe][1]]
+        kkind = rng.choice(['none', 'temp+Y', 'some', 'perm'])
+        if kkind == 'none':
+            kept = None
+        elif kkind == 'temp+Y':
+            kept = ' '.join(['temp'] + [f"Y({x})" for x in rng.sample(sp, 2)])
+        else:
+            sel = sorted(rng.sample(keys, rng.randint(1, 4)), key=keys.index)
+            if kkind == 'perm':
+                rng.shuffle(sel)
+            kept = ' '.join(sel)
+        keep_ids = [fidx[x] for x in kept.split()] if kept else []
+        pressure = rng.choice([0.5, 1.0, 4.0])
+        serial = rng.random() < 0.5
+        count(f"recipe={recipe}")
+        count(f"kept={kkind}")
+        outp = os.path.join(core.scratch_dir(f"c11b_{seed}_out"), 'cooked')
+        os.makedirs(os.path.dirname(outp))
+        desc = dict(seed=seed, builtin_recipe=recipe, species=species, reactions=reactions, kept_fields=kept, pressure_atm=pressure,
+                    serial=serial, fields=keys, mechanism=MECH, meta=pf.meta)
+        core.set_policy(rng.choice(['identity', 'reverse', 'random']), seed + k)
+        res = core.outcome(lambda: Chef(plotfile=path, recipe=recipe, outfile=outp, species=species, reactions=reactions, mech=MECH,
+                                        pressure=pressure, kept_fields=kept, serial=serial).cook())
+        core.set_policy('identity', 0)
+        out['evals'] += 1
+        out['keys'].append(core.khash(seed, 'builtin', k))
+
+        def recipe_fn(fi, box):
+            return builtin_expected(gas, box, keys, recipe, sp_idx, rx_idx, pressure)
+        bad = None
+        iimg = None
+        if res[0] != 'ok':
+            bad = 'cooking a well-formed plotfile raised: ' + res[1]
+        else:
+            iimg = oracle.read_image(outp)
+            try:
+                oc = oracle.contents_of_image(iimg)
+                bad = check_contents(oc, pf, keys, keep_ids, new_names, recipe_fn, fidx, new_rtol=1e-9)
+            except (ValueError, IndexError, KeyError) as e:
+                bad = f'output is not a well-formed plotfile: {e}'
+            if not bad:
+                v, detail = tc.impl_taste(outp, None, (True, True, False, True), True)
+                if v != 'good':
+                    bad = f'validation does not accept the output: {v} {detail}'
+        if bad:
+            out['violations'].append(dict(desc, kind='wrong-output', what=bad))
+            continue
+        if not out['samples']:
+            out['samples'].append(dict(desc, output_fields=[keys[i] for i in keep_ids] + new_names))
+        # the model's recipe table: the values just checked against Cantera (the implementation's own bits, so that
+        # rounding-level differences in the evaluation order do not disturb the byte-level comparison of the skeleton)
+        table = []
+        has_nan = False
+        nk = len(keep_ids)
+        for lvi, o in enumerate(oc['levels']):
+            for (lo, hi), data in zip(o['boxes'], o['data']):
+                new = data[..., nk:]
+                has_nan = has_nan or bool(np.isnan(new).any())
+                table.append([lvi, list(lo), list(hi), [np.asarray(new[..., c], dtype='<f8').tobytes(order='F') for c in range(new.shape[-1])]])
+        count(f"recipe values contain NaN={has_nan}")
+        if has_nan:
+            # the model's min/max order is on non-NaN bit patterns (np.min propagates NaN): the directory comparison is
+            # skipped, the property oracle above (which reads NaN extrema as NaN) has decided the case
+            continue
+        outnames = [keys[i] for i in keep_ids] + new_names
+        st, m = model.call('chef', [keep_ids, [x.encode() for x in outnames], table, img_sx])
+        mimg = oracle.image_from_sx(m) if st == 'ok' else None
+        d = 'model refuses' if mimg is None else oracle.same_image(iimg, mimg)
+        if d:
+            out['disagreements'].append(dict(desc, kind='model-vs-impl', what='output directory differs from Writers.Chef.chef: ' + d,
+                                             correspondence='Writers.Chef.chef vs Chef.cook (built-in recipe)'))
+    return out
+
+
+
 def run(tier, seed):
     rep = core.Report(PID, tier, seed)
     pg = core.proof_gate(PID, thorough=(tier == 'thorough'))
@@ -188,6 +361,9 @@ def run(tier, seed):
     cases = [seed * 100000 + 11000 + i for i in range(ncases)]
     for r in core.run_cases(run_case, core.with_corpus(PID, cases)):
         rep.merge(r)
+    nb = 12 if tier == 'quick' else 150
+    for r in core.run_cases(run_builtin_case, [seed * 100000 + 11500 + i for i in range(nb)]):
+        rep.merge(r)
     rep.obligation('correspondence: Writers.Chef.chef (recipe = table of the Python recipe\'s per-box results) = output directory of '
                    'Chef.cook (binary files byte for byte, level headers token for token with min/max by value)',
                    not any(v[0].get('kind') == 'model-vs-impl' for v in rep.violations))
@@ -195,18 +371,22 @@ def run(tier, seed):
         level_rule=("cases = generated 3D plotfile (1-3 levels, mixed boxes, all layout kinds, int / random payloads) x 2 (user recipe written "
                     "to a .py file: sum, scale, copy, position-dependent, 2- and 3-component; kept-field string: none / subset / permuted / "
                     "repeated / with unknown names / all; serial or controlled pool); output parsed by the independent reader: names, "
-                    "kept bit-identical, new = recipe(box) bit for bit, min/max = extrema of the written data, taste with box coordinates"),
+                    "kept bit-identical, new = recipe(box) bit for bit, min/max = extrema of the written data, taste with box coordinates; "
+                    "plus the built-in thermochemical recipes HRR / ENT / SRi / SDi / RRi (Cantera h2o2 mechanism: species lists, 'all', "
+                    "reaction lists; kept temp / Y fields; mass fractions summing to one only up to 1e-6; cells without a state; pressures "
+                    "0.5 / 1 / 4 atm varying between the cases one worker process runs): new fields against an independent Cantera "
+                    "evaluation per box (1e-9 relative), the skeleton byte for byte against the model"),
         trusted_base=core.COMMON_TRUSTED + [
             "the recipe is a parameter of the model; in the correspondence it is the table of what the Python recipe returned for each box (evaluated by the harness on the generated box data)",
             "float ordering for min/max is modelled on IEEE bit patterns (NaN excluded: payloads are finite); str(np.float64) tokens are compared by value",
-            "Cantera-backed recipes (HRR/ENT/SRi/SDi/RRi) share the scan/concatenate/min-max skeleton; their values are Cantera's and are not modelled"],
+            "Cantera-backed recipes (HRR/ENT/SRi/SDi/RRi) share the scan/concatenate/min-max skeleton with the modelled user knife; their values are Cantera's: checked against an independent SolutionArray evaluation within 1e-9 relative, not modelled; the directory comparison is skipped when a recipe value is NaN (np.min propagates NaN, the model's order is on non-NaN bit patterns)"],
         assumptions=["float(repr(x)) == x"],
         checker_cmd=pg['checker_cmd'])
 
 
 def replay(doc):
     core.worker_init(core.REPO, quiet=False)
-    r = run_case(doc['seed'])
+    r = run_builtin_case(doc['seed']) if 'builtin_recipe' in doc else run_case(doc['seed'])
     bad = r['violations'] + r['disagreements']
     for v in bad:
         print('REPLAY:', v.get('what'))
